@@ -240,6 +240,20 @@ func runRegHistory(tw *traceWriter, h regHistory, router string) {
 					}
 				}
 			}
+		case "clear": // remove every route of a live service, one by one, and once more when none is left
+			if ws, ok := live[op[1]]; ok {
+				for _, s := range content {
+					if s.root == op[1] {
+						pv = safely(func() {
+							for _, rt := range ws.Routes() {
+								ws.RemoveRoute(rt.Path, rt.Method)
+							}
+							ws.RemoveRoute(strings.TrimRight(s.root, "/")+"/x", "GET")
+						})
+						s.routes = []string{}
+					}
+				}
+			}
 		case "unroute": // remove route /x from a live service
 			if ws, ok := live[op[1]]; ok {
 				for _, s := range content {
@@ -381,8 +395,11 @@ func runRegistry(planPath, outPath string, seed int64) {
 					root := pick(r, cands)
 					h.Ops = append(h.Ops, []string{"dup", root}, []string{"undup", root})
 				}
-			case x < 94:
+			case x < 93:
 				h.Ops = append(h.Ops, []string{"swap", pick(r, pool)})
+			case x < 95:
+				root := pick(r, pool)
+				h.Ops = append(h.Ops, []string{"clear", root}, []string{"route", root})
 			default:
 				h.Ops = append(h.Ops, []string{"unroute", pick(r, pool)})
 			}
